@@ -109,6 +109,10 @@ func (x *vRespRun) one(stream []byte, cuts []int, ref string, monitor bool) {
 	obs := vShowRParse(rs, st)
 	x.out.emit(op, obs)
 	x.n++
+	if st == "panic" {
+		x.mon.report("C13:text-parser-panics:response", "TextParser.ParseResponse panics on a byte stream a peer can send",
+			map[string]interface{}{"stream": vHex(stream), "chunks": vHexList(chunks), "stream_text": fmt.Sprintf("%q", string(stream[:vMinInt(len(stream), 80)]))})
+	}
 	if monitor && ref != "" && obs != ref {
 		cause := "multi-cut"
 		for _, c := range cuts {
@@ -294,6 +298,7 @@ func vTextRespCases(r *rand.Rand, out *vOut, mon *vMonLimiter, n int) {
 	// hand-written RESP: accepted-but-odd and malformed replies (monitored only when the one-buffer parse accepts them)
 	for _, s := range []string{"+\r\n", "-\r\n", "- \r\n", "-ERR \r\n", "-ERR  two blanks\r\n", "+a\rb\r\n", "+a\r\r\n", "+\rx\r\n", "-E\rR m\rsg\r\r\n", "-ERR\rx\r\n",
 		"$0\r\n\r\n", "$-1\r\n", "$-1\r\n\r\n", "*0\r\n", "*-1\r\n", "*1\r\n$1\r\na\r\n", "*2\r\n$1\r\na\r\n$0\r\n\r\n", ":1\r\n", ":-2\r\n", "+OK\n", "+OK\r", "-ERR x\n", "$1\r\na\n", "+OK\r\n+OK\r\n", "-E m\r\n$1\r\nx\r\n+t\r\n",
+		"$" + strings.Repeat("0", 129) + "\r\n", "$" + strings.Repeat("5", 200), "*" + strings.Repeat("0", 129) + "\r\n", "*1\r\n$" + strings.Repeat("3", 131) + "\r\n", "*2\r\n$1\r\na\r\n$" + strings.Repeat("1", 129),
 		"*1\r\n+OK\r\n", "*1\r\n*1\r\n$1\r\na\r\n", "$2\r\na\r\n", "$3\r\nabc\r\nJUNK", "+OK\r\n\r\n", "!x\r\n", "", "+", "-", "$", "*"} {
 		if s == "" {
 			continue
